@@ -90,6 +90,14 @@ theorem consts_ok :
   refine ⟨by decide, ⟨Gen.maxBufferSizeProd / Gen.bufferSize, by decide, by decide⟩,
     ⟨Gen.maxBufferSizeHook / Gen.bufferSize, by decide, by decide⟩⟩
 
+/-- the threshold at the **production** constants of the current source (100 MiB on the pinned tree):
+    this is the closed form the production-build run (`zvrt prod`) is compared with -/
+theorem C17_rx_threshold_prod (sizes : Nat → Nat) (f : List Byte) (hf : FrameOK f) :
+    (poll ⟨Gen.bufferSize, Gen.maxBufferSizeProd⟩ sizes (init ⟨Gen.bufferSize, Gen.maxBufferSizeProd⟩) ⟨f ++ [0], true, 0⟩).1 =
+      if f.length + 1 < Gen.maxBufferSizeProd then .frame f else .err .overflow :=
+  C17_rx_threshold ⟨Gen.bufferSize, Gen.maxBufferSizeProd⟩ (Gen.maxBufferSizeProd / Gen.bufferSize)
+    (by decide) (by decide) (by decide) sizes f hf
+
 /-! ## Non-vacuity -/
 namespace Example
 def C : Consts := { step := 4, max := 8 }
